@@ -58,6 +58,7 @@ var noPanicExternal = []string{
 	"fmt.Errorf", "fmt.Sprintf", "fmt.Sprint", "fmt.Printf", "fmt.Println", "fmt.Print", "errors.New",
 	"math.Log2", "math.Pow", "math.Exp2", "math.Log", "math.Floor", "math.Ceil", "math.Abs", "math.Sqrt", "math.IsNaN", "math.IsInf",
 	"log.Println", "log.Printf", "log.Print",
+	"(*strings.Builder).WriteString", "(*strings.Builder).String", "(*strings.Builder).WriteByte", "(*strings.Builder).WriteRune", "(*strings.Builder).Len", "(*strings.Builder).Reset",
 	"sort.Strings", "sort.Ints",
 	"unicode/utf8.RuneCountInString", "unicode/utf8.RuneCount", "unicode/utf8.ValidString",
 	"crypto/rand.Read", "io.ReadFull", "(encoding/binary.bigEndian).Uint32", "(encoding/binary.littleEndian).Uint32",
